@@ -64,3 +64,13 @@ Proof. split; reflexivity. Qed.
 Theorem C18_lock_discipline : Gen.lock_discipline_storage = true.
 Proof. repeat split; reflexivity. Qed.
 Print Assumptions C18_lock_discipline.
+
+(* ---------- look-ups do not write under the read lock (go/ast obligation; defect D26) ---------- *)
+(* The storage model treats a look-up that stamps UsedAt as one step that changes the state.  Two
+   look-ups can run at once only under the read lock; a method that takes only the read lock of its
+   receiver assigns to nothing but its own locals (21 such methods in storage, state, peering,
+   router, m, switchr, mgr, frame, config; recomputed on every run), so every step that changes the
+   stored state holds the write lock.  (MemStorage.GetRouter stamped UsedAt under RLock: fix ad3369d.) *)
+Theorem C18_read_locked_sections_do_not_write : Gen.read_locked_sections_do_not_write = true.
+Proof. reflexivity. Qed.
+Print Assumptions C18_read_locked_sections_do_not_write.
